@@ -49,6 +49,13 @@ func execHist(r *R) string {
 	var hu []heldU32
 	snapState := bodyTokens(p)
 	isXR := kind == "XR"
+	var canaries *canarySet
+	if kind != "RAW" {
+		canaries = plantCanaries(p)
+		if bodyTokens(p) != snapState {
+			panic(parseErr{"canary planting changed the value"})
+		}
+	}
 	var res []string
 	check := func(step int) string {
 		for _, h := range hb {
@@ -77,6 +84,9 @@ func execHist(r *R) string {
 			}
 			if isXR && err == nil {
 				snapState = bodyTokens(p) // documented exception: block headers are filled in
+			}
+			if isXR && canaries != nil && err == nil {
+				canaries.resnap() // the documented exception writes the blocks' header fields
 			}
 		case op == "S":
 			res = append(res, fmt.Sprintf("S=%d", p.MarshalSize()))
@@ -115,6 +125,7 @@ func execHist(r *R) string {
 				res = append(res, "U=ok")
 				p = q
 				snapState = bodyTokens(p)
+				canaries = nil
 			}
 		default:
 			panic(parseErr{"hist op " + op})
@@ -124,6 +135,9 @@ func execHist(r *R) string {
 		}
 		if m := check(i); m != "" {
 			return m
+		}
+		if canaries != nil && !canaries.intact() {
+			return fmt.Sprintf("mutated step=%d hidden-capacity-of-a-slice-of-the-packet", i)
 		}
 	}
 	return "ok " + strings.Join(res, " ") + " ; " + bodyTokens(p)
